@@ -29,7 +29,11 @@ Record gcfg : Type := {
   gc_oldest : bool;      (* offset: oldest *)
   gc_coop : bool;        (* balancer cooperative-sticky (or none given: kgo's default) *)
   gc_kip : bool;         (* the broker offers OffsetForLeaderEpoch *)
-  gc_pipe : bool;        (* mode 1: the real pipeline with an output that acknowledges at once *)
+  gc_pipe : bool;        (* mode 1: the real pipeline with an output that acknowledges at once; mode 2: see gc_discard *)
+  gc_discard : bool;     (* mode 2: the real pipeline with an action that DISCARDS the records of kind 4 and an output that
+                            acknowledges late: a discarded record is dropped - never handed over, never acknowledged, and no
+                            mark / committed offset may belong to it (its partition's offset moves only with the records the
+                            output acknowledged) *)
   gc_maxsize : Z
 }.
 Definition gcfg_of_sx (s : sx) : option gcfg :=
@@ -37,8 +41,8 @@ Definition gcfg_of_sx (s : sx) : option gcfg :=
   | SL [SZ off; SZ bal; SZ meta; SZ buf; SZ conc; SZ kip; SZ mpf; SZ mode; SZ msz; SZ ferr; SZ spam] =>
       if (0 <=? off) && (off <=? 1) && (0 <=? bal) && (bal <=? 4) && (0 <=? meta) && (meta <=? 2)
          && (1 <=? buf) && (0 <=? conc) && (0 <=? kip) && (kip <=? 1) && (0 <=? mpf)
-         && (0 <=? mode) && (mode <=? 1) && ((msz =? 0) || (32 <=? msz)) && ((ferr =? 0) || (2 <=? ferr)) && (0 <=? spam)
-      then Some {| gc_oldest := off =? 1; gc_coop := 3 <=? bal; gc_kip := kip =? 1; gc_pipe := mode =? 1; gc_maxsize := msz |}
+         && (0 <=? mode) && (mode <=? 2) && ((msz =? 0) || (32 <=? msz)) && ((ferr =? 0) || (2 <=? ferr)) && (0 <=? spam)
+      then Some {| gc_oldest := off =? 1; gc_coop := 3 <=? bal; gc_kip := kip =? 1; gc_pipe := 1 <=? mode; gc_discard := mode =? 2; gc_maxsize := msz |}
       else None
   | _ => None
   end.
@@ -119,8 +123,9 @@ Definition gfetch_ok (topics : list bytes) (nps : list Z) (c : gcfg) (log : list
   let k := fst f in
   (0 <=? snd k) && (snd k <? np_of topics nps (fst k))
   && ascending_from (last_off log k) (snd f) && epochs_ascend (last_epoch log k) (snd f)
-  && forallb (fun x : grec => rec_in_range_b topics (fst x) && (0 <=? snd x) && (snd x <=? 3)
-                              && (if snd x =? 3 then 32 <=? gc_maxsize c else true)) (snd f).
+  && forallb (fun x : grec => rec_in_range_b topics (fst x) && (0 <=? snd x) && (snd x <=? 4)
+                              && (if snd x =? 3 then 32 <=? gc_maxsize c else true)
+                              && (if snd x =? 4 then gc_discard c else true)) (snd f).
 
 (* ---- the state ------------------------------------------------------------------------------- *)
 Record gst : Type := {
